@@ -98,7 +98,8 @@ class DecodeTracer:
     call; raises KeyboardInterrupt at the chosen one (Ctrl-C inside decode)
     and gives up with _Hang beyond a cap (a decode that never returns)."""
 
-    PREFIX = seams.REPO + 'decoders' + '/'
+    PREFIX = (seams.REPO + 'decoders' + '/',
+              seams.REPO + 'error_models' + '/')
 
     def __init__(self, ki_at=None, cap=3_000_000):
         self.ki_at = ki_at
@@ -246,6 +247,14 @@ def gen_history(seed):
             ops.append({'op': 'cache_clear'})
         else:
             ops.append({'op': 'gc'})
+    # the first call of a decoder is where lazy initialisation (decoder
+    # set-up, first computation of cached tables) happens
+    seen_dec = set()
+    for op in ops:
+        if op['op'] == 'decode' and op['dec'] not in seen_dec:
+            seen_dec.add(op['dec'])
+            if rng.random() < 0.3:
+                op['ki_line'] = rng.randint(1, 120)
     return {'property': PROP, 'kind': 'history', 'seed': seed, 'cfg': cfg,
             'noise': noise, 'decoders': decoders, 'ops': ops,
             'syn_dtype': rng.choice(['native', 'native', 'int64'])}
@@ -306,7 +315,10 @@ def execute_here(plan, keep_events=False):
                 decs.append(None)
                 sim.probe('decoder_construct_raised_' + type(e).__name__)
         rates = sorted({d['rate'] for d in plan['decoders']})
-        env0 = env_digests(code, noise, rates)
+        # reference digests come from a separate pair of fresh objects, so
+        # that the shared objects' caches are first filled by the code under
+        # test itself (possibly inside an interrupted call)
+        env0 = env_digests(make_code(cfg), make_noise(nz), rates)
         n = code.n
         if plan['kind'] == 'pairs':
             ops = pair_ops(code, plan)
